@@ -225,6 +225,42 @@ def consistent(site_conds, site_stores, stop_path: Path) -> bool:
     return True
 
 
+def poll_listens_on_kill_pipe(ctx, RK, P) -> None:
+    """The waker of the reader's poll is a write to the kill pipe: that only wakes it if the wait includes the pipe's read end,
+    and the reader only goes on to read when the *inotify* descriptor is the readable one."""
+    ini = P.find_method("Inotify", "__init__")
+    if ini is None:
+        raise AnalysisError("anchor vanished: Inotify.__init__")
+    assigned = [ast.unparse(n.value) for n in ast.walk(ini.node) if isinstance(n, ast.Assign) and any(ast.unparse(t) == "self._check_inotify_fd" for t in n.targets)]
+    fns = {f.name: f for f in ast.walk(ini.node) if isinstance(f, ast.FunctionDef) and f is not ini.node}
+    if not assigned or not all(a in fns for a in assigned):
+        raise AnalysisError("anchor vanished: the functions bound to Inotify._check_inotify_fd")
+    registered = {ast.unparse(n.args[0]) for n in ast.walk(ini.node) if isinstance(n, ast.Call) and ast.unparse(n.func) == "self._poller.register" and n.args}
+    want = {"self._inotify_fd", "self._kill_r"}
+    for name in assigned:
+        f = fns[name]
+        calls = [n for n in ast.walk(f) if isinstance(n, ast.Call)]
+        polls = [n for n in calls if ast.unparse(n.func) == "self._poller.poll"]
+        sels = [n for n in calls if ast.unparse(n.func) == "select.select"]
+        rets = [n.value for n in ast.walk(f) if isinstance(n, ast.Return) and n.value is not None]
+        cmp_ok = bool(rets) and all(
+            any(isinstance(c, ast.Compare) and len(c.ops) == 1 and isinstance(c.ops[0], (ast.Eq, ast.In)) and "self._inotify_fd" in (ast.unparse(c.left), ast.unparse(c.comparators[0])) for c in ast.walk(r)) and "_kill_r" not in ast.unparse(r)
+            for r in rets
+        )
+        if polls:
+            listens = registered >= want and all(not n.args and not n.keywords for n in polls)
+            what = f"registered {sorted(registered)}, poll() untimed={all(not n.args and not n.keywords for n in polls)}"
+        elif sels:
+            rd = sels[0].args[0] if sels[0].args else None
+            got = {ast.unparse(x) for x in rd.elts} if isinstance(rd, (ast.List, ast.Tuple)) else set()
+            listens = got >= want and len(sels[0].args) == 3
+            what = f"select read set {sorted(got)}"
+        else:
+            listens, what = False, "neither poll() nor select() is called"
+        ctx.check(listens, RK, f"reader wait `{name}` listens on the kill pipe", f"the reader's blocking wait does not include the kill pipe's read end ({what}): close() writes to the pipe but the reader sleeps on until the next filesystem event; InotifyBuffer.close() joins it forever", f"{ini.module.relpath}:{f.lineno}")
+        ctx.check(cmp_ok, RK, f"reader wait `{name}` reports readiness of the inotify descriptor", "the wait's result is not `the inotify descriptor is among the readable ones`: after a wake-up through the kill pipe the reader would block in read(2), or skip reading when data is there", f"{ini.module.relpath}:{f.lineno}")
+
+
 def run(ctx) -> None:
     P = ctx.P
     RO = ctx.rule("C06/lock-order", "the graph 'lock B may be acquired while lock A is held' (through resolved calls) is acyclic", floor=1)
@@ -473,6 +509,7 @@ def run(ctx) -> None:
             ctx.check(ok, RK, construct, msg, f"{fn}:{line}", {"stop_paths_considered": len(cons), "state_at_site": [c[2] + "=" + str(c[3]) for c in conds][-6:]})
             ctx.sample({"thread": T, "site": f"{fn}:{line}", "kind": kind[0]})
     ctx.count("blocking_sites", nsites)
+    poll_listens_on_kill_pipe(ctx, RK, P)
 
     from ..monitor import monitor_discipline
 
@@ -557,6 +594,9 @@ VARIANTS = [
     dict(name="B sentinel before the flag", expect="fire", rule="C06/every-block-has-a-waker", edits=[(API, "        BaseThread.stop(self)\n        with contextlib.suppress(queue.Full):\n            self.event_queue.put_nowait(EventDispatcher.stop_event)", "        with contextlib.suppress(queue.Full):\n            self.event_queue.put_nowait(EventDispatcher.stop_event)\n        BaseThread.stop(self)")]),
     dict(name="B hook before the flag in BaseThread.stop", expect="fire", rule="C06/every-block-has-a-waker", edits=[(UT, "        self._stopped_event.set()\n        self.on_thread_stop()", "        self.on_thread_stop()\n        self._stopped_event.set()")]),
     dict(name="B buffer stop hook forgets the queue", expect="fire", rule="C06/every-block-has-a-waker", edits=[(IB, "        self._inotify.close()\n        self._queue.close()", "        self._inotify.close()")]),
+    dict(name="B kill pipe not registered with the poller", expect="fire", rule="C06/every-block-has-a-waker", edits=[(IC, "            self._poller.register(self._kill_r, select.POLLIN)\n", "")]),
+    dict(name="B select variant ignores the kill pipe", expect="fire", rule="C06/every-block-has-a-waker", edits=[(IC, "select.select([self._inotify_fd, self._kill_r], [], [])", "select.select([self._inotify_fd], [], [])")]),
+    dict(name="B select variant reports the wrong descriptor", expect="fire", rule="C06/every-block-has-a-waker", edits=[(IC, "return self._inotify_fd in result[0]", "return self._inotify_fd not in result[0]")]),
     dict(name="B kill-pipe write dropped", expect="fire", rule="C06/every-block-has-a-waker", edits=[(IC, "                    os.write(self._kill_w, b\"!\")", "                    pass")]),
     dict(name="B stop hook takes the emitter lock", expect="fire", rule="C06/", edits=[(IN, "    def on_thread_stop(self) -> None:\n        if self._inotify:\n            self._inotify.close()\n            self._inotify = None", "    def on_thread_stop(self) -> None:\n        with self._lock:\n            if self._inotify:\n                self._inotify.close()\n                self._inotify = None")]),
     dict(name="B DelayedQueue.close without notify", expect="fire", rule="C06/", edits=[(DQ, "        self._not_empty.acquire()\n        self._not_empty.notify()\n        self._not_empty.release()\n\n    def get", "\n    def get")]),
